@@ -86,12 +86,89 @@ func checkCopy(c fam.Case) *fail {
 				f = &fail{"copy-differs-from-reference-inlining", "the reference tree", strings.Join(diffs, "\n"), classes(c)}
 				return
 			}
+			if p := usesRecords(ms, false); p != "" {
+				f = &fail{"uses-records-without-the-option", "no Entry.Uses records", p, classes(c)}
+				return
+			}
+		}
+		// the same with the option that records, on every node, the uses statements written in it:
+		// the copies are what they are without it, and the records name the statements in order
+		ms := yang.NewModules()
+		ms.ParseOptions.StoreUses = true
+		for _, n := range w.Order {
+			if err := ms.Parse(w.Mods[n].Text(), n+".yang"); err != nil {
+				f = &fail{"load-error", "loads", err.Error(), classes(c)}
+				return
+			}
+		}
+		if errs := ms.Process(); len(errs) > 0 {
+			f = &fail{"process-errors:store-uses", "no errors", dump.Errors(errs), classes(c)}
+			return
+		}
+		var diffs []string
+		for _, m := range []string{"a", "b"} {
+			for _, d := range ircmp.Compare(w.Trees[m], yang.ToEntry(ms.Modules[m]), ircmp.All) {
+				diffs = append(diffs, m+d)
+			}
+		}
+		if len(diffs) > 0 {
+			f = &fail{"copy-differs-from-reference-inlining:store-uses", "the reference tree", strings.Join(diffs, "\n"), classes(c)}
+			return
+		}
+		if p := usesRecords(ms, true); p != "" {
+			f = &fail{"uses-records-wrong", "one record per uses statement written in the node, in order, each with its grouping", p, classes(c)}
 		}
 	})
 	if pan {
 		return &fail{"panic@" + core.LastPanicSite, "no panic", pt, classes(c)}
 	}
 	return f
+}
+
+// usesRecords checks Entry.Uses on every node of every module: empty without the option; with it,
+// the records of a node begin with one record per uses statement written in that node, in order.
+func usesRecords(ms *yang.Modules, on bool) string {
+	var problem string
+	seen := map[*yang.Entry]bool{}
+	var walk func(e *yang.Entry, path string)
+	walk = func(e *yang.Entry, path string) {
+		if e == nil || seen[e] || problem != "" {
+			return
+		}
+		seen[e] = true
+		if !on && len(e.Uses) > 0 {
+			problem = fmt.Sprintf("%s has %d records", path, len(e.Uses))
+			return
+		}
+		if on && e.Node != nil && e.Node.Statement() != nil && e.Kind != yang.CaseEntry || on && e.Node != nil && e.Node.Statement() != nil && e.Node.Statement().Keyword == "case" {
+			var written []string
+			for _, st := range e.Node.Statement().SubStatements() {
+				if st.Keyword == "uses" {
+					written = append(written, st.Argument)
+				}
+			}
+			if len(e.Uses) < len(written) {
+				problem = fmt.Sprintf("%s: %d uses statements written, %d records", path, len(written), len(e.Uses))
+				return
+			}
+			for i, arg := range written {
+				u := e.Uses[i]
+				if u == nil || u.Uses == nil || u.Grouping == nil || u.Uses.Name != arg || u.Grouping.Name != arg[strings.Index(arg, ":")+1:] {
+					problem = fmt.Sprintf("%s: record %d does not describe uses %s", path, i, arg)
+					return
+				}
+			}
+		}
+		for k, c := range ircmp.Kids(e) {
+			walk(c, path+"/"+k)
+		}
+	}
+	for n, m := range ms.Modules {
+		if !strings.Contains(n, "@") {
+			walk(yang.ToEntry(m), "/"+n)
+		}
+	}
+	return problem
 }
 
 // subtree dumps the subtree below a top-level node of a module, positions off.
